@@ -167,24 +167,26 @@ variable {p0 : PImg} {live lo : Nat} {allowed covered : List Nat}
 
 def segJs (m : Mem) : List Nat := (List.range (cNData m - 1)).map (· + 1)
 
-theorem pblk_segA (m : Mem) (ps0 : PS) (hsk : SameKey p0.hdr ps0.pm) (hnp : min ps0.bm ps0.pm.nextPage = lo) :
-    (segA m ps0).2.2 = lo ∧
+theorem pblk_segA (m : Mem) (ps0 : PS) (hsk : SameKey p0.hdr ps0.pm) (hnp : lo ≤ min ps0.bm ps0.pm.nextPage) :
+    (segA m ps0).2.2 = min ps0.bm ps0.pm.nextPage ∧
     ∃ nd', PBlk p0 live allowed covered lo lo ps0 (segA m ps0).1
-      ((0 :: (segJs m ++ [cNData m])).map (fun j => PEff.segPart lo j (cNData m + 1) (cEdges m))) nd' (segA m ps0).2.1 := by
+      ((0 :: (segJs m ++ [cNData m])).map (fun j => PEff.segPart (min ps0.bm ps0.pm.nextPage) j (cNData m + 1) (cEdges m))) nd'
+      (segA m ps0).2.1 := by
   obtain ⟨b0, hk0, _⟩ := pblk_alloc (p0 := p0) (live := live) (lo := lo) (allowed := allowed) (covered := covered) ps0 hsk hnp
+  generalize hmf : min ps0.bm ps0.pm.nextPage = mf at b0 hk0 hnp
   have bw1 := pblk_write (p0 := p0) (live := live) (lo := lo) (allowed := allowed) (covered := covered) b0.sk b0.np
-    (.segPart lo 0 (cNData m + 1) (cEdges m)) (allocA ps0).2.2 ⟨Nat.le_refl _, by omega⟩
-  have b2 := pblk_segParts (p0 := p0) (live := live) (lo := lo) (allowed := allowed) (covered := covered) lo (cNData m + 1) (cEdges m)
-    (Nat.le_refl _) (segJs m) (lo + 1) (allocA ps0).2.1 b0.sk b0.np (by omega)
-  obtain ⟨b3, _, _⟩ := pblk_alloc (p0 := p0) (live := live) (lo := lo) (allowed := allowed) (covered := covered)
-    (segPartsA lo (cNData m + 1) (cEdges m) (allocA ps0).2.1 (segJs m)).2 b2.sk b2.np
+    (.segPart mf 0 (cNData m + 1) (cEdges m)) (allocA ps0).2.2 ⟨hnp, by omega⟩
+  have b2 := pblk_segParts (p0 := p0) (live := live) (lo := lo) (allowed := allowed) (covered := covered) mf (cNData m + 1) (cEdges m)
+    hnp (segJs m) (mf + 1) (allocA ps0).2.1 b0.sk b0.np (by omega)
+  obtain ⟨b3, _, _⟩ := pblk_alloc_eq (p0 := p0) (live := live) (lo := lo) (allowed := allowed) (covered := covered)
+    (segPartsA mf (cNData m + 1) (cEdges m) (allocA ps0).2.1 (segJs m)).2 b2.sk b2.np
   have bw4 := pblk_write (p0 := p0) (live := live) (lo := lo) (allowed := allowed) (covered := covered) b3.sk b3.np
-    (.segPart lo (cNData m) (cNData m + 1) (cEdges m))
-    (allocA (segPartsA lo (cNData m + 1) (cEdges m) (allocA ps0).2.1 (segJs m)).2).2.2 ⟨Nat.le_refl _, by omega⟩
+    (.segPart mf (cNData m) (cNData m + 1) (cEdges m))
+    (allocA (segPartsA mf (cNData m + 1) (cEdges m) (allocA ps0).2.1 (segJs m)).2).2.2 ⟨hnp, by omega⟩
   have bs := pblk_sync (p0 := p0) (live := live) (lo := lo) (allowed := allowed) (covered := covered) b3.sk b3.np
   have hall := ((((b0.append bw1).append b2).append b3).append bw4).append bs
-  refine ⟨by simp [segA, hk0], lo + 1 + (segJs m).length + 1, ?_⟩
-  have hk : (allocA ps0).2.2 = lo := hk0
+  refine ⟨by simp [segA, hk0], mf + 1 + (segJs m).length + 1, ?_⟩
+  have hk : (allocA ps0).2.2 = mf := hk0
   simpa [segA, segJs, hk, List.append_assoc] using hall
 
 theorem leaf1_empty (r : Nat) : Leaf1 (emptyTree r) [] r := ⟨rfl, rfl⟩
@@ -209,7 +211,7 @@ theorem pblk_treeA (cfg : Cfg) (m : Mem) (vol : PImg) (ps : PS) (nd : Nat) (hsk 
     by_cases hr : m.proot = 0
     · -- a new tree
       have hl0 : live = 0 := by rw [hlive, hr]
-      obtain ⟨ba, hpid, _⟩ := pblk_alloc (p0 := p0) (live := live) (lo := lo) (allowed := allowed) (covered := covered) ps hsk hnp
+      obtain ⟨ba, hpid, _⟩ := pblk_alloc_eq (p0 := p0) (live := live) (lo := lo) (allowed := allowed) (covered := covered) ps hsk hnp
       have hrne : (allocA ps).2.2 ≠ live := by rw [hpid, hl0]; omega
       have bn := pblk_write (p0 := p0) (live := live) (lo := lo) (allowed := allowed) (covered := covered) ba.sk ba.np
         (.treeNew (allocA ps).2.2) (allocA ps).2.2 ⟨hrne, by rw [hpid]; omega⟩
@@ -314,12 +316,14 @@ structure PagesPost (cfg : Cfg) (T : List Tx) (fs : FS) (m : Mem) (covered : Lis
   pager : PagerActs (pagesA cfg m fs.pv).1
   setpm : OnlySetPm (memUpds (pagesA cfg m fs.pv).1)
   lastpm : lastPm (memUpds (pagesA cfg m fs.pv).1) m.pm = (pagesA cfg m fs.pv).2.1.pm
+  lastbm : lastBm (memUpds (pagesA cfg m fs.pv).1) m.bm = (pagesA cfg m fs.pv).2.1.bm
   safe : SafeAlong (fun g => AllImgsL m.proot g (fun p => ∃ n, CG fs.pd m.proot (allProps T) covered (frontier fs.pd) n p)) fs
     (ioSteps (pagesA cfg m fs.pv).1)
   pj : (fs.steps (ioSteps (pagesA cfg m fs.pv).1)).pj = [PEff.stats]
   hdr : (fs.steps (ioSteps (pagesA cfg m fs.pv).1)).pd.hdr = (pagesA cfg m fs.pv).2.1.pm
+  pbm : (fs.steps (ioSteps (pagesA cfg m fs.pv).1)).pd.bm = (pagesA cfg m fs.pv).2.1.bm
   cg : ∃ n, CG fs.pd m.proot (allProps T) covered (frontier fs.pd) n (fs.steps (ioSteps (pagesA cfg m fs.pv).1)).pd
-  k0 : (pagesA cfg m fs.pv).2.2.1 = frontier fs.pd
+  k0 : (pagesA cfg m fs.pv).2.2.1 = min m.bm m.pm.nextPage
   seg : ∃ s, segFind (fs.steps (ioSteps (pagesA cfg m fs.pv).1)).pd (pagesA cfg m fs.pv).2.2.1 = some s ∧ s.edges = cEdges m
   same : cProps m = [] → (pagesA cfg m fs.pv).2.2.2 = (m.proot, m.ptop)
   tree : cProps m ≠ [] → (pagesA cfg m fs.pv).2.2.2.1 ≠ 0 ∧ (pagesA cfg m fs.pv).2.2.2.2 = false ∧
@@ -341,13 +345,16 @@ theorem pages_post {cfg : Cfg} {T : List Tx} {fs : FS} {m : Mem} {cs : List CTx}
             segKeys := fun s hs => by have := h.store.segKeys s hs; unfold frontier; omega,
             treeKeys := fun t ht => by have := h.store.treeKeys t ht; unfold frontier; omega,
             treeLive := by rw [hlive]; exact hc3 }
-  have hsk0 : SameKey fs.pd.hdr (m.ps fs.pv).pm := by
-    show SameKey fs.pd.hdr m.pm
-    rw [h.mpm]; exact SameKey.refl _
-  have hnp0 : min (m.ps fs.pv).bm (m.ps fs.pv).pm.nextPage = frontier fs.pd := by
-    show min fs.pv.bm m.pm.nextPage = _
-    rw [h.mpm, hpv]; rfl
+  have hsk0 : SameKey fs.pd.hdr (m.ps fs.pv).pm := h.mpm
+  have hnp0 : frontier fs.pd ≤ min (m.ps fs.pv).bm (m.ps fs.pv).pm.nextPage := by
+    show frontier fs.pd ≤ min m.bm m.pm.nextPage
+    have := h.mbm
+    have := h.mpm.np
+    unfold frontier; omega
+  have hmfe : min (m.ps fs.pv).bm (m.ps fs.pv).pm.nextPage = min m.bm m.pm.nextPage := rfl
+  rw [hmfe] at hnp0
   obtain ⟨hk0, nd1, bseg⟩ := pblk_segA (p0 := fs.pd) (live := m.proot) (lo := frontier fs.pd) (allowed := allProps T) (covered := covered) m (m.ps fs.pv) hsk0 hnp0
+  rw [hmfe] at hk0 bseg
   have hprops : ∀ q ∈ cProps m, q ∈ allProps T := by
     intro q hq
     have := (mem_sortNat q _).mp hq
@@ -362,7 +369,7 @@ theorem pages_post {cfg : Cfg} {T : List Tx} {fs : FS} {m : Mem} {cs : List CTx}
   obtain ⟨nd2, teffs, btree, hTE, hcase1, hcase2⟩ :=
     pblk_treeA (p0 := fs.pd) (live := m.proot) (lo := frontier fs.pd) (allowed := allProps T) (covered := covered) cfg m fs.pv (segA m (m.ps fs.pv)).2.1 nd1
       bseg.sk bseg.np hpos rfl (by rw [hpv]) hns hprops (by rw [hlive]; exact hc2) (by rw [hlive]; exact hc3)
-  obtain ⟨ba, _, hef⟩ := pblk_alloc (p0 := fs.pd) (live := m.proot) (lo := frontier fs.pd) (allowed := allProps T) (covered := covered)
+  obtain ⟨ba, _, hef⟩ := pblk_alloc_eq (p0 := fs.pd) (live := m.proot) (lo := frontier fs.pd) (allowed := allProps T) (covered := covered)
     (treeA cfg m fs.pv (segA m (m.ps fs.pv)).2.1).2.1 btree.sk btree.np
   have bw := pblk_write (p0 := fs.pd) (live := m.proot) (lo := frontier fs.pd) (allowed := allProps T) (covered := covered) ba.sk ba.np .stats
     (allocA (treeA cfg m fs.pv (segA m (m.ps fs.pv)).2.1).2.1).2.2 trivial
@@ -379,9 +386,11 @@ theorem pages_post {cfg : Cfg} {T : List Tx} {fs : FS} {m : Mem} {cs : List CTx}
   have hflush : ((fs.steps (ioSteps (((segA m (m.ps fs.pv)).1 ++ (treeA cfg m fs.pv (segA m (m.ps fs.pv)).2.1).1) ++
       (allocA (treeA cfg m fs.pv (segA m (m.ps fs.pv)).2.1).2.1).1))).pj = []) ∧
       (fs.steps (ioSteps (((segA m (m.ps fs.pv)).1 ++ (treeA cfg m fs.pv (segA m (m.ps fs.pv)).2.1).1) ++
-      (allocA (treeA cfg m fs.pv (segA m (m.ps fs.pv)).2.1).2.1).1))).pd.hdr = (pagesA cfg m fs.pv).2.1.pm := by
+      (allocA (treeA cfg m fs.pv (segA m (m.ps fs.pv)).2.1).2.1).1))).pd.hdr = (pagesA cfg m fs.pv).2.1.pm ∧
+      (fs.steps (ioSteps (((segA m (m.ps fs.pv)).1 ++ (treeA cfg m fs.pv (segA m (m.ps fs.pv)).2.1).1) ++
+      (allocA (treeA cfg m fs.pv (segA m (m.ps fs.pv)).2.1).2.1).1))).pd.bm = (pagesA cfg m fs.pv).2.1.bm := by
     rw [hps]
-    exact synced_of_endsFlushed (endsFlushed_append (bseg.append btree).nofail hef)
+    exact synced_of_endsFlushed (fs := fs) (endsFlushed_append (bseg.append btree).nofail hef)
   have hfinal : fs.steps (ioSteps (pagesA cfg m fs.pv).1) =
       (fs.steps (ioSteps (((segA m (m.ps fs.pv)).1 ++ (treeA cfg m fs.pv (segA m (m.ps fs.pv)).2.1).1) ++
         (allocA (treeA cfg m fs.pv (segA m (m.ps fs.pv)).2.1).2.1).1))).step
@@ -392,8 +401,11 @@ theorem pages_post {cfg : Cfg} {T : List Tx} {fs : FS} {m : Mem} {cs : List CTx}
     rw [hfinal]
     show _ ++ [PEff.stats] = _
     rw [hflush.1]; rfl
+  have hstep_pd : ∀ (g : FS) (e : PEff) (pid : Nat), (g.step (.pg e pid)).pd = g.pd := fun _ _ _ => rfl
   have hhdrF : (fs.steps (ioSteps (pagesA cfg m fs.pv).1)).pd.hdr = (pagesA cfg m fs.pv).2.1.pm := by
-    rw [hfinal]; exact hflush.2
+    rw [hfinal, hstep_pd]; exact hflush.2.1
+  have hbmF : (fs.steps (ioSteps (pagesA cfg m fs.pv).1)).pd.bm = (pagesA cfg m fs.pv).2.1.bm := by
+    rw [hfinal, hstep_pd]; exact hflush.2.2
   have hinertF : Inert (fs.steps (ioSteps (pagesA cfg m fs.pv).1)).pj := by
     rw [hpjF]; intro e he; simpa using he
   -- segments and trees of the final image
@@ -403,42 +415,42 @@ theorem pages_post {cfg : Cfg} {T : List Tx} {fs : FS} {m : Mem} {cs : List CTx}
   rw [hpv] at hST
   simp only [ST, Prod.mk.injEq] at hST
   obtain ⟨hsegs, htrees⟩ := hST
-  have hfresh : ∀ s ∈ fs.pd.segs, s.key ≠ (frontier fs.pd) := fun s hs => by
-    have := h.store.segKeys s hs; unfold frontier; omega
+  have hfresh : ∀ s ∈ fs.pd.segs, s.key ≠ (min m.bm m.pm.nextPage) := fun s hs => by
+    have := h.store.segKeys s hs; unfold frontier at hnp0; omega
   have hTE' : ∀ e ∈ teffs ++ [] ++ [PEff.stats], TreeE e := by
     intro e he
     simp only [List.append_nil, List.mem_append, List.mem_singleton] at he
     rcases he with he | rfl
     · exact hTE e he
     · trivial
-  have hsplit : (0 :: (segJs m ++ [cNData m])).map (fun j => PEff.segPart (frontier fs.pd) j (cNData m + 1) (cEdges m)) ++ teffs ++ [] ++ [PEff.stats] =
-      (PEff.segPart (frontier fs.pd) 0 (cNData m + 1) (cEdges m) ::
-        (segJs m ++ [cNData m]).map (fun j => PEff.segPart (frontier fs.pd) j (cNData m + 1) (cEdges m))) ++ (teffs ++ [] ++ [PEff.stats]) := by
+  have hsplit : (0 :: (segJs m ++ [cNData m])).map (fun j => PEff.segPart (min m.bm m.pm.nextPage) j (cNData m + 1) (cEdges m)) ++ teffs ++ [] ++ [PEff.stats] =
+      (PEff.segPart (min m.bm m.pm.nextPage) 0 (cNData m + 1) (cEdges m) ::
+        (segJs m ++ [cNData m]).map (fun j => PEff.segPart (min m.bm m.pm.nextPage) j (cNData m + 1) (cEdges m))) ++ (teffs ++ [] ++ [PEff.stats]) := by
     simp
-  have hsegF : pdF.segs = ⟨(frontier fs.pd), cEdges m, cNData m + 1, (segJs m ++ [cNData m]).reverse ++ [0]⟩ :: fs.pd.segs := by
+  have hsegF : pdF.segs = ⟨(min m.bm m.pm.nextPage), cEdges m, cNData m + 1, (segJs m ++ [cNData m]).reverse ++ [0]⟩ :: fs.pd.segs := by
     rw [hsegs, hsplit, applyEffs_append, segs_treeEffs _ hTE']
-    have h1 : applyEffs (PEff.segPart (frontier fs.pd) 0 (cNData m + 1) (cEdges m) ::
-        (segJs m ++ [cNData m]).map (fun j => PEff.segPart (frontier fs.pd) j (cNData m + 1) (cEdges m))) fs.pd =
-        applyEffs ((segJs m ++ [cNData m]).map (fun j => PEff.segPart (frontier fs.pd) j (cNData m + 1) (cEdges m)))
-          (applyEff (PEff.segPart (frontier fs.pd) 0 (cNData m + 1) (cEdges m)) fs.pd) := rfl
+    have h1 : applyEffs (PEff.segPart (min m.bm m.pm.nextPage) 0 (cNData m + 1) (cEdges m) ::
+        (segJs m ++ [cNData m]).map (fun j => PEff.segPart (min m.bm m.pm.nextPage) j (cNData m + 1) (cEdges m))) fs.pd =
+        applyEffs ((segJs m ++ [cNData m]).map (fun j => PEff.segPart (min m.bm m.pm.nextPage) j (cNData m + 1) (cEdges m)))
+          (applyEff (PEff.segPart (min m.bm m.pm.nextPage) 0 (cNData m + 1) (cEdges m)) fs.pd) := rfl
     rw [h1]
     exact segs_parts _ _ _ _ _ _ _ [0] fs.pd.segs (updSeg_fresh _ _ _ _ _ hfresh) hfresh
   have htreeF : ∀ p1 : PImg, p1 = applyEffs ((0 :: (segJs m ++ [cNData m])).map
-      (fun j => PEff.segPart (frontier fs.pd) j (cNData m + 1) (cEdges m))) fs.pd →
+      (fun j => PEff.segPart (min m.bm m.pm.nextPage) j (cNData m + 1) (cEdges m))) fs.pd →
       pdF.trees = (applyEffs teffs p1).trees ∧ p1.trees = fs.pd.trees := by
     intro p1 hp1
     constructor
     · rw [htrees, List.append_assoc, List.append_assoc, applyEffs_append, ← hp1, List.nil_append, applyEffs_append]
       rfl
     · rw [hp1]; exact trees_segParts _ _ _ _ _
-  refine { nofail := hall.nofail, pager := hall.pager, setpm := hall.setpm, lastpm := hall.lastpm, safe := hall.safe fs hinit,
-           pj := hpjF, hdr := hhdrF, cg := ?_, k0 := by rw [hkey]; exact hk0, seg := ?_, same := ?_, tree := ?_ }
+  refine { nofail := hall.nofail, pager := hall.pager, setpm := hall.setpm, lastpm := hall.lastpm, lastbm := hall.lastbm,
+           safe := hall.safe fs hinit, pj := hpjF, hdr := hhdrF, pbm := hbmF, cg := ?_, k0 := by rw [hkey]; exact hk0, seg := ?_, same := ?_, tree := ?_ }
   · rw [hpdF]
     have := allImgsL_pd _ _ _ (hall.post fs hinit)
     rw [hpdF] at this
     exact ⟨_, this⟩
   · rw [hkey, hk0, hpdF]
-    refine ⟨⟨(frontier fs.pd), cEdges m, cNData m + 1, (segJs m ++ [cNData m]).reverse ++ [0]⟩, ?_, rfl⟩
+    refine ⟨⟨(min m.bm m.pm.nextPage), cEdges m, cNData m + 1, (segJs m ++ [cNData m]).reverse ++ [0]⟩, ?_, rfl⟩
     simp only [segFind, hsegF, List.find?_cons, beq_self_eq_true, Bool.true_and, complete_parts]
   · intro hp
     rw [hrt]; exact (hcase1 hp).1
